@@ -456,6 +456,23 @@ func GenAmmoFile(rng *rand.Rand, format string, maxEntries int, vidBase int) Amm
 		}
 		f.Items = append(f.Items, Item{Entry: &e})
 	}
+	if (format == "uripost" || format == "raw") && rng.Intn(60) == 0 {
+		// payloads above 1 MiB (the decoders read those in another way), several per file
+		for k := 0; k < 2+rng.Intn(2); k++ {
+			e := Entry{Method: "POST", URI: GenURI(rng, vidBase+n+k), Tag: genTag(rng)}
+			body := make([]byte, 1<<20+4096+rng.Intn(3))
+			fill := byte('a' + k)
+			for i := range body {
+				body[i] = fill
+			}
+			copy(body, fmt.Sprintf("big-%d-", vidBase+n+k))
+			e.Body = body
+			if format == "raw" {
+				e.Host = "rawbig.example.org"
+			}
+			f.Items = append(f.Items, Item{Entry: &e})
+		}
+	}
 	return f
 }
 
@@ -641,13 +658,13 @@ func DiffExpect(g Got, x Expect) string {
 		d = append(d, fmt.Sprintf("method %q want %q", g.Method, x.Method))
 	}
 	if g.URI != x.URI {
-		d = append(d, fmt.Sprintf("uri %q want %q", g.URI, x.URI))
+		d = append(d, fmt.Sprintf("uri %s want %s", short(g.URI), short(x.URI)))
 	}
 	if g.Host != x.Host {
 		d = append(d, fmt.Sprintf("host %q want %q", g.Host, x.Host))
 	}
 	if !bytes.Equal(g.Body, x.Body) {
-		d = append(d, fmt.Sprintf("body %q want %q", g.Body, x.Body))
+		d = append(d, fmt.Sprintf("body %s want %s", short(string(g.Body)), short(string(x.Body))))
 	}
 	if g.Tag != x.Tag && !(x.Tag == "" && g.Tag == "__EMPTY__") {
 		d = append(d, fmt.Sprintf("tag %q want %q", g.Tag, x.Tag))
@@ -656,6 +673,14 @@ func DiffExpect(g Got, x Expect) string {
 		d = append(d, "headers: "+hd)
 	}
 	return strings.Join(d, "; ")
+}
+
+// short quotes a value, cutting long ones (generated queries and bodies can be megabytes).
+func short(s string) string {
+	if len(s) <= 160 {
+		return fmt.Sprintf("%q", s)
+	}
+	return fmt.Sprintf("%q…(%d bytes)…%q", s[:80], len(s), s[len(s)-40:])
 }
 
 func DiffHeader(got, want http.Header) string {
